@@ -32,7 +32,8 @@ STAGES = {
     "C07": [S("e_seq", "asu", 4000, 40000, leakcheck=True), S("e_comp", "asu", 4000, 40000, leakcheck=True), S("e_tbb", "asu", 2000, 25000, leakcheck=True),
             S("e_mpi", "asu", 2000, 20000, leakcheck=True), S("e_tbb", "tsan", 1000, 20000, gate=False), S("e_mpi", "tsan", 800, 10000, gate=False),
             S("e_demo_mcb", "asu", 600, 15000, leakcheck=True), S("e_demo_approx", "asu", 600, 15000, leakcheck=True), S("e_demo_stats", "asu", 400, 8000, leakcheck=True), S("e_demo_mpi", "asu", 600, 15000, leakcheck=True),
-            S("e_seq", "plain", 0, 400, wrapper="valgrind", gate=False, nworkers=8), S("e_comp", "plain", 0, 400, wrapper="valgrind", gate=False, nworkers=8)],
+            S("e_seq", "plain", 0, 3000, wrapper="valgrind", gate=False), S("e_comp", "plain", 0, 3000, wrapper="valgrind", gate=False),
+            S("e_tbb", "plain", 0, 1500, wrapper="valgrind", gate=False), S("e_mpi", "plain", 0, 600, wrapper="valgrind", gate=False)],
     "C11": [S("e_demo_mcb", "asu", 10000, 80000), S("e_demo_approx", "asu", 10000, 80000), S("e_demo_stats", "asu", 4000, 30000), S("e_demo_mpi", "asu", 10000, 80000)],
     "C04": [S("e_mpi", "asu", 20000, 200000), S("e_mpi", "tsan", 4000, 40000, gate=False)],
     "C10": [S("e_comp", "asu", 60000, 600000, crash_counts=True)],
